@@ -173,9 +173,39 @@ class Builder:
                 ctype = re.sub(r"\[(\d+)l\]", r"[\1]", sym.get("prettyType", ""))
                 ctype = ctype.replace("const ", "")
                 autos.setdefault(fn, {})[name] = ctype
+        # call-graph closure from each API function over the library's own
+        # functions, not crossing the functions harnesses replace by stubs; the
+        # fixed table C16_CLOSURE is the fallback / lower bound
+        def base(n):
+            m = re.match(r"__CPROVER_file_local_\w+?_[ch]_(\w+)$", n)
+            return m.group(1) if m else n
+        edges = {}
+        for tu in ("polyseed", "lang", "gf", "storage", "features", "dependency"):
+            r = sh(["goto-instrument", "--call-graph", self.real_tu(cfg, tu)])
+            for line in r.stdout.splitlines():
+                m = re.match(r"^(\S+) -> (\S+)$", line.strip())
+                if m:
+                    edges.setdefault(base(m.group(1)), set()).add(base(m.group(2)))
+        stop = {"utf8_nfkd_lazy": {"polyseed_decode", "polyseed_decode_explicit"},
+                "str_split": {"polyseed_decode", "polyseed_decode_explicit"},
+                "polyseed_phrase_decode": {"polyseed_decode"},
+                "polyseed_phrase_decode_explicit": {"polyseed_decode_explicit"},
+                "write_str": {"polyseed_encode"},
+                "lang_search": {"polyseed_phrase_decode", "polyseed_phrase_decode_explicit"},
+                "polyseed_lang_check": set(self.C16_CLOSURE)}
         with open(path + ".tmp", "w") as f:
-            f.write("/* generated from the goto symbol tables of the current tree: automatic aggregates per API function */\n")
-            for api, closure in self.C16_CLOSURE.items():
+            f.write("/* generated from the goto symbol tables and call graphs of the current tree: automatic aggregates per API function */\n")
+            for api, fixed in self.C16_CLOSURE.items():
+                closure, todo = [], [api]
+                while todo:
+                    fn = todo.pop()
+                    if fn in closure or (fn in stop and api in stop[fn]):
+                        continue
+                    closure.append(fn)
+                    todo.extend(sorted(edges.get(fn, ())))
+                for fn in fixed:
+                    if fn not in closure:
+                        closure.append(fn)
                 ents = []
                 for fn in closure:
                     for name, ctype in sorted(autos.get(fn, {}).items()):
